@@ -81,6 +81,18 @@ func RenderFasta(recs []FastaRec, wrap int) string {
 	return sb.String()
 }
 
+// Describe gives some of the records a free-text description after the ID, separated by a
+// space, a tab or several blanks: the sequence ID is the first whitespace-delimited token.
+func Describe(r *fw.Rng, recs []FastaRec) {
+	for i := range recs {
+		if recs[i].Desc != recs[i].ID || !r.Chance(0.3) {
+			continue
+		}
+		sep := []string{" ", "\t", "  ", " \t"}[r.Intn(4)]
+		recs[i].Desc = recs[i].ID + sep + []string{"England 2020-03-04", "hCoV-19/sample|EPI_ISL_1|2021", "x", "a\tb c"}[r.Intn(4)]
+	}
+}
+
 func PickLineWidth(r *fw.Rng, L int) int {
 	switch r.Intn(6) {
 	case 0:
